@@ -1379,6 +1379,10 @@ func (n RangeNumber) Compare(v val.Value) (int64, error) {
 			}
 			return 0, nil
 		case val.FmtUInt64:
+			if n.unsigned == nil && ((n.integer != nil && *n.integer < 0) || (n.integer == nil && n.float != nil && *n.float < 0)) {
+				// negative bound is below every unsigned value
+				return -1, nil
+			}
 			a := n.getUnit64()
 			b := v.Value().(uint64)
 			if a < b {
@@ -1390,6 +1394,10 @@ func (n RangeNumber) Compare(v val.Value) (int64, error) {
 			return 0, nil
 		default:
 			if i, ok := v.(val.Int64able); ok {
+				if n.integer == nil && n.float == nil && n.unsigned != nil {
+					// bound is above math.MaxInt64, so above every value here
+					return 1, nil
+				}
 				a := n.getInt64()
 				b := i.Int64()
 				if a < b {
